@@ -281,6 +281,10 @@ pub enum COp {
     /// append beyond the reservation of the region that is last in the file: it grows in
     /// place (the thread switches to the dedicated region "last")
     ExtendLast,
+    /// append beyond the reservation of a region that is directly followed by a hole large
+    /// enough for the added reservation: it expands into the hole (the thread switches to
+    /// the dedicated region "hx")
+    ExpandHole,
     Truncate,
     Rename,
     Remove,
@@ -294,11 +298,12 @@ pub enum COp {
     SetMinRegions,
 }
 
-pub const ALL_COPS: [COp; 15] = [
+pub const ALL_COPS: [COp; 16] = [
     COp::WriteFits,
     COp::Relocate,
     COp::GrowFile,
     COp::ExtendLast,
+    COp::ExpandHole,
     COp::Truncate,
     COp::Rename,
     COp::Remove,
@@ -323,6 +328,10 @@ fn run_cop(w: &World, k: usize, op: COp, model: &mut Option<Vec<u8>>, name: &mut
         *name = "last".to_string();
         *model = Some(pattern(30, 0, 100));
     }
+    if op == COp::ExpandHole && name != "hx" {
+        *name = "hx".to_string();
+        *model = Some(pattern(31, 0, 100));
+    }
     let region = || w.db.get_region(name).ok_or_else(|| "region missing".to_string());
     let needs_region = !matches!(
         op,
@@ -342,6 +351,13 @@ fn run_cop(w: &World, k: usize, op: COp, model: &mut Option<Vec<u8>>, name: &mut
             m.extend_from_slice(&d);
             at += 5000;
             let _ = at;
+        }
+        COp::ExpandHole => {
+            let r = region()?;
+            let m = model.as_mut().ok_or("no model")?;
+            let d = pattern(31, m.len(), 5000);
+            r.write(&d).map_err(e)?;
+            m.extend_from_slice(&d);
         }
         COp::WriteFits | COp::Relocate | COp::GrowFile => {
             let n = match op {
@@ -440,7 +456,9 @@ fn run_cop(w: &World, k: usize, op: COp, model: &mut Option<Vec<u8>>, name: &mut
 }
 
 /// Regions t0,x0,t1,x1,... (100 bytes each, flushed): every t{k} has a neighbour behind it.
-fn region_world(dir: &Path, n_threads: usize) -> World {
+/// With `hole`: additionally hx (100 bytes, one page reserved) directly followed by a flushed
+/// 8 KiB hole.
+fn region_world(dir: &Path, n_threads: usize, hole: bool) -> World {
     let db = Database::open(dir).expect("open");
     for k in 0..n_threads {
         let r = db.create_region_if_needed(&format!("t{k}")).unwrap();
@@ -448,9 +466,19 @@ fn region_world(dir: &Path, n_threads: usize) -> World {
         let x = db.create_region_if_needed(&format!("x{k}")).unwrap();
         x.write(&pattern(k + 40, 0, 100)).unwrap();
     }
+    if hole {
+        let hx = db.create_region_if_needed("hx").unwrap();
+        hx.write(&pattern(31, 0, 100)).unwrap();
+        let gap = db.create_region_if_needed("gap").unwrap();
+        gap.write(&pattern(32, 0, 5000)).unwrap();
+    }
     let last = db.create_region_if_needed("last").unwrap();
     last.write(&pattern(30, 0, 100)).unwrap();
     db.flush().unwrap();
+    if hole {
+        db.remove_region("gap").unwrap();
+        db.flush().unwrap();
+    }
     World {
         dir: dir.to_path_buf(),
         db,
@@ -478,6 +506,7 @@ pub fn region_program_with(ops: Vec<Vec<COp>>, verify: bool) -> Program {
         ("compact", &[COp::Compact, COp::BgCompact][..]),
         ("growth", &[COp::GrowFile][..]),
         ("extend_last", &[COp::ExtendLast][..]),
+        ("expand_hole", &[COp::ExpandHole][..]),
         ("create", &[COp::Create][..]),
         ("remove", &[COp::Remove][..]),
         ("relocate", &[COp::Relocate][..]),
@@ -487,12 +516,13 @@ pub fn region_program_with(ops: Vec<Vec<COp>>, verify: bool) -> Program {
         }
     }
     let class: &'static str = Box::leak(format!("{};", flags.join(";")).into_boxed_str());
+    let with_hole = ops.iter().flatten().any(|o| *o == COp::ExpandHole);
     Program {
         panic_property: "C10,C12",
         class,
         name,
         locks_only: !verify,
-        setup: Box::new(move |d| region_world(d, n)),
+        setup: Box::new(move |d| region_world(d, n, with_hole)),
         bodies: Box::new(move |_w| {
             ops2.iter()
                 .enumerate()
@@ -875,7 +905,7 @@ pub fn plan(property: &str, tier: &str) -> Vec<Job> {
             if !quick {
                 // triples: a pair of operations that hold one lock across another acquisition
                 // plus one operation that queues a writer
-                let heavy = [COp::RegionFlush, COp::Compact, COp::BgCompact, COp::Flush, COp::Reader];
+                let heavy = [COp::RegionFlush, COp::Compact, COp::BgCompact, COp::Flush, COp::Reader, COp::ExpandHole];
                 let queuers = [COp::GrowFile, COp::Create, COp::Remove, COp::Rename];
                 for (i, a) in heavy.iter().enumerate() {
                     for b in heavy.iter().skip(i) {
@@ -903,6 +933,8 @@ pub fn plan(property: &str, tier: &str) -> Vec<Job> {
                     (COp::RegionFlush, COp::Compact, COp::GrowFile),
                     (COp::Reader, COp::Compact, COp::GrowFile),
                     (COp::Flush, COp::Compact, COp::Create),
+                    (COp::ExpandHole, COp::Flush, COp::Create),
+                    (COp::ExpandHole, COp::Compact, COp::GrowFile),
                 ] {
                     jobs.push(job(vec![vec![a], vec![b], vec![c]], 1, true, 600));
                 }
@@ -938,6 +970,10 @@ pub fn plan(property: &str, tier: &str) -> Vec<Job> {
             for b in [COp::Create, COp::Relocate, COp::GrowFile, COp::Remove] {
                 jobs.push(job(vec![vec![COp::ExtendLast, COp::Reader], vec![b, COp::Reader]], if quick { 2 } else { 3 }, true, if quick { 600 } else { 20000 }));
             }
+            // a region expands into the hole behind it while others allocate, flush or compact
+            for b in [COp::Create, COp::Relocate, COp::Flush, COp::Compact] {
+                jobs.push(job(vec![vec![COp::ExpandHole, COp::Reader], vec![b, COp::Reader]], if quick { 1 } else { 3 }, true, if quick { 300 } else { 20000 }));
+            }
             for a in [COp::Relocate, COp::GrowFile] {
                 for b in [COp::Flush, COp::Compact, COp::RegionFlush] {
                     jobs.push(job(vec![vec![a, COp::WriteFits], vec![b], vec![COp::Create, COp::WriteFits]], if quick { 1 } else { 2 }, true, if quick { 200 } else { 5000 }));
@@ -945,7 +981,7 @@ pub fn plan(property: &str, tier: &str) -> Vec<Job> {
             }
         }
         "C12" => {
-            for a in [COp::WriteFits, COp::Relocate, COp::Truncate, COp::Remove, COp::Create] {
+            for a in [COp::WriteFits, COp::Relocate, COp::Truncate, COp::Remove, COp::Create, COp::ExpandHole] {
                 jobs.push(job(vec![vec![COp::Compact], vec![a, COp::WriteFits]], if quick { 2 } else { 3 }, true, if quick { 400 } else { 20000 }));
                 if !quick {
                     jobs.push(job(vec![vec![COp::Compact], vec![a, COp::WriteFits], vec![COp::WriteFits, COp::WriteFits]], 2, true, 20000));
